@@ -8,16 +8,29 @@ let simple_prefix = "INFO|c.c:1 - "
 type st =
   | Nothing
   | Rot of { raw : bool; bc : int; p : parg; cwd : z; pre : sname gfsys; g : (sname, rh) gst option }
-  | Trot of { raw : bool; u : tunit; md : z; local : bool; tz : z; p : parg; cwd : z; g : (tname, th) gst option }
+  | Trot of { raw : bool; u : tunit; md : z; local : bool; tz : zone; p : parg; cwd : z; g : (tname, th) gst option }
   | Bad
 
 (* path argument of the handler, see the C driver *)
 let parg_of = function
   | "abs" -> PAbs (Dir (Z0, Z0))
+  | s when String.length s > 4 && String.sub s 0 4 = "long" -> PAbs (Dir (Z0, z_of_int 2))   (* long<N>: an absolute path of N bytes *)
   | "abssub" -> PAbs (Dir (Z0, z_of_int 1))
   | "sub" -> PRel (z_of_int 1)
   | _ -> PRel Z0            (* rel, dot *)
-let dir_str (Dir (r, s)) = "d" ^ string_of_z r ^ (if int_of_z s = 1 then "/sub/dir" else "")
+(* zone field of the header: an offset, or zone;<TZ string>;<base>;<t>=<off>,... *)
+let zone_of (w : string) : zone =
+  match String.split_on_char ';' w with
+  | "zone" :: _ :: base :: rest ->
+    let trs = (match rest with
+      | [] | [ "" ] -> []
+      | l :: _ -> List.filter_map (fun it ->
+          match String.split_on_char '=' it with
+          | [ t; o ] -> Some (z_of_string t, z_of_string o)
+          | _ -> None) (String.split_on_char ',' l)) in
+    { z_base = z_of_string base; z_trans = trs }
+  | _ -> fixed_zone (z_of_string w)
+let dir_str (Dir (r, s)) = "d" ^ string_of_z r ^ (match int_of_z s with 1 -> "/sub/dir" | 2 -> "/LONG" | _ -> "")
 let bsz = code_msg_max_len
 
 let sname_str = function SLive -> "log.txt" | SBak i -> Printf.sprintf "log.txt.%d" (int_of_nat i)
@@ -54,13 +67,13 @@ let handle (lines : string list) : unit =
     | Nothing, "trot" :: f :: u :: md :: loc :: tz :: rest ->
       let sp = (match rest with x :: _ -> x | [] -> "abs") in
       let u = (match u.[0] with 's' -> USec | 'm' -> UMin | 'h' -> UHour | _ -> UDay) in
-      st := Trot { raw = (f = "raw"); u; md = z_of_string md; local = (loc <> "0"); tz = z_of_string tz;
+      st := Trot { raw = (f = "raw"); u; md = z_of_string md; local = (loc <> "0"); tz = zone_of tz;
                    p = parg_of sp; cwd = Z0; g = None }
     | Nothing, _ :: _ -> print_endline "badheader"; st := Bad
     | Bad, _ -> ()
     | _, [] -> ()
     | _, [ ("civil" | "lcivil") as op; s ] ->
-      let tz = (match !st with Trot t -> t.tz | _ -> Z0) in
+      let tz = (match !st with Trot t -> t.tz | _ -> fixed_zone Z0) in
       print_tm op (if op = "civil" then gmtime (z_of_string s) else localtime tz (z_of_string s))
     | Rot r, [ "chdir"; k ] ->
       (match r.g with
@@ -99,6 +112,15 @@ let handle (lines : string list) : unit =
       (match r.g with
        | None -> print_endline "restart ignored"
        | Some g -> st := Rot { r with g = Some (rg_step bsz g (GRestart (z_of_string a))) }; print_endline "restart 0")
+    | Rot r, [ "restart"; a; b ] ->
+      (* destroy + init with ANOTHER backup_count: a new configuration on the files as they are, resolved
+         against the current working directory *)
+      (match r.g with
+       | None -> print_endline "restart ignored"
+       | Some g ->
+         let bc = int_of_string b in
+         st := Rot { r with bc; g = Some (rg_start (gs_fs (fun h -> h.r_fs) g) g.gs_cwd r.p (z_of_string a) (nat_of_int bc)) };
+         print_endline "restart 0")
     | Trot t, [ "restart"; a ] ->
       (match t.g with
        | None -> print_endline "restart ignored"
